@@ -46,6 +46,11 @@ func makeDepGraph(program Program) depGraph {
 		s := rule.Head.Predicate
 		dep.initNode(s)
 		for _, premise := range rule.Premises {
+			// A literal with a temporal annotation or operator depends on its
+			// predicate like any other literal.
+			if tl, ok := premise.(ast.TemporalLiteral); ok {
+				premise = tl.Literal
+			}
 			switch p := premise.(type) {
 			case ast.Atom:
 				if _, ok := builtin.Predicates[p.Predicate]; ok {
